@@ -698,8 +698,9 @@ func (w *world) single(s dirSpec) *placement {
 			lines = []string{c, ""}
 			pl.Observe = "blank-line-between-comment-and-statement"
 		case "first-of-several":
+			// docs/linter.md: "you can put leading/trailing comments for each statements": a directive that is
+			// followed by further leading comments is still a leading comment of the statement (expectation, not observation)
 			lines = []string{c, ind + "# a remark about the statement", ind + "// and another one"}
-			pl.Observe = "directive-first-of-several-leading-comments"
 		case "last-of-several":
 			lines = []string{ind + "# a remark about the statement", ind + "// You can disable specific rules only", c}
 		}
@@ -724,6 +725,20 @@ func (w *world) single(s dirSpec) *placement {
 			pl.Observe = "blank-lines-inside-range-comments"
 		}
 		pl.Edits = []edit{{File: p.File, Line: p.First, Where: "before", Lines: st}, {File: q.File, Line: q.Last, Where: "after", Lines: en}}
+	}
+	if s.Layout == "tab" {
+		// a tab also between the directive keyword and its rule list
+		for ei := range pl.Edits {
+			for li, l := range pl.Edits[ei].Lines {
+				for _, kw := range []string{"falco-ignore-next-line ", "falco-ignore-start ", "falco-ignore-end ", "falco-ignore "} {
+					if i := strings.Index(l, kw); i >= 0 && !strings.HasPrefix(l[i+len(kw):], "*/") {
+						l = l[:i+len(kw)-1] + "\t" + l[i+len(kw):]
+						break
+					}
+				}
+				pl.Edits[ei].Lines[li] = l
+			}
+		}
 	}
 	pl.Desc = fmt.Sprintf("%s marker=%s rules=%s(%s) layout=%q at %s:%d..%d `%s`", s.Form, s.Marker, s.RKind, strings.Join(s.Rules, s.Sep), s.Layout, p.File, p.First, q.Last, p.Text)
 	pl.variant = func(marker string, bare, plain, compact bool) *placement {
